@@ -43,6 +43,9 @@
 (*                           records, record sequence numbers included, so *)
 (*                           a peer with an anti-replay window discards     *)
 (*                           every retransmitted record it has seen before  *)
+(*   FingerprintAnyInChain   the expected fingerprint is accepted if ANY     *)
+(*                           entry of the Certificate message has it, while *)
+(*                           the key is taken from the first entry          *)
 (*   Epoch0AppData           plaintext ApplicationData is delivered        *)
 (*   Epoch0HandshakeAfterKeys a plaintext handshake message can advance or  *)
 (*                           fail the handshake after keys were negotiated *)
@@ -84,13 +87,13 @@ Units == 6
 \* frag/nfrag: fragment i of an n-way split (0/1: unfragmented), covering units lo..hi-1
 Msg(t, ms) ==
   [t |-> t, ms |-> ms, frag |-> 0, nfrag |-> 1, lo |-> 0, hi |-> Units,
-   rnd |-> "-", ck |-> FALSE, prof |-> "-", cert |-> "-", dh |-> "-",
+   rnd |-> "-", ck |-> FALSE, prof |-> "-", cert |-> "-", also |-> "-", dh |-> "-",
    sigBy |-> "-", sigCr |-> "-", sigSr |-> "-", sigDh |-> "-", sigTr |-> <<>>, sigN |-> "-",
    fin |-> NoFin, enc |-> NoMaster, bad |-> FALSE,
    same |-> FALSE]     \* a retransmission that reuses the record sequence number of the first transmission
 
 \* What enters the handshake transcript (the bytes of the message, abstractly).
-Dig(m) == [t |-> m.t, ms |-> m.ms, rnd |-> m.rnd, ck |-> m.ck, prof |-> m.prof, cert |-> m.cert,
+Dig(m) == [t |-> m.t, ms |-> m.ms, rnd |-> m.rnd, ck |-> m.ck, prof |-> m.prof, cert |-> m.cert, also |-> m.also,
            dh |-> m.dh, sigBy |-> m.sigBy, sigCr |-> m.sigCr, sigSr |-> m.sigSr, sigDh |-> m.sigDh,
            sigN |-> m.sigN, bad |-> m.bad]
 
@@ -106,18 +109,24 @@ NoFrag == [ms |-> 0, seq |-> <<>>]        \* seq: the [lo, hi) pieces buffered f
 
 \* cert: the certificate the endpoint presents; key: the private key it signs with (KeyOf(cert) for an
 \* honest endpoint, the adversary's for an endpoint that presents somebody else's certificate)
-InitEp(e, cert, key, dh, rnd, expFp) ==
+\* also: a second entry in the Certificate message it sends ("-" = none); only the first entry (cert) is the
+\* peer's certificate, whatever else the list contains
+InitEp(e, cert, also, key, dh, rnd, expFp) ==
   [role |-> e, st |-> "Handshaking", sendSeq |-> 0, recvSeq |-> 0, postHvr |-> FALSE,
    tr |-> <<>>, cr |-> "-", sr |-> "-", prof |-> "-",
-   cert |-> cert, key |-> key, dh |-> dh, rnd |-> rnd, expFp |-> expFp,
+   cert |-> cert, also |-> also, key |-> key, dh |-> dh, rnd |-> rnd, expFp |-> expFp,
    peerCert |-> "-", skeOk |-> FALSE, cvOk |-> FALSE, crSeen |-> FALSE, peerDh |-> "-",
    keys |-> NoMaster, last |-> <<>>, frag |-> NoFrag, seenRec |-> {}, ooo |-> {}, early |-> {},
    appGot |-> 0, appBad |-> 0, started |-> FALSE]
 
 \* Who runs an endpoint: "certC"/"certS" the genuine party; "certM" the adversary with its own certificate and
 \* key; "stolen" the adversary presenting the genuine party's certificate without having its key.
-CertOfId(id, e) == IF id = "stolen" THEN (IF e = "C" THEN "certC" ELSE "certS") ELSE id
-KeyOfId(id, e)  == IF id = "stolen" THEN "certM" ELSE id
+\* "chain": the adversary with its own certificate and key, whose Certificate message lists the genuine party's
+\* certificate as a second entry.
+Genuine(e) == IF e = "C" THEN "certC" ELSE "certS"
+CertOfId(id, e) == IF id = "stolen" THEN Genuine(e) ELSE IF id = "chain" THEN "certM" ELSE id
+AlsoOfId(id, e) == IF id = "chain" THEN Genuine(e) ELSE "-"
+KeyOfId(id, e)  == IF id \in {"stolen", "chain"} THEN "certM" ELSE id
 
 Flight(msgs, rtx, why) == [msgs |-> msgs, rtx |-> rtx, why |-> why]
 Res(s, out) == [s |-> s, out |-> out]
@@ -158,7 +167,7 @@ RecvCH(s, m) ==
     LET q    == s.sendSeq
         prof == "1"                                  \* prefers SRTP_AES128_CM_HMAC_SHA1_80 when offered
         sh   == [Msg("SH", q) EXCEPT !.rnd = s.rnd, !.prof = prof]
-        cert == [Msg("CERT", q + 1) EXCEPT !.cert = s.cert]
+        cert == [Msg("CERT", q + 1) EXCEPT !.cert = s.cert, !.also = s.also]
         ske  == [Msg("SKE", q + 2) EXCEPT !.dh = s.dh, !.sigBy = s.key, !.sigCr = m.rnd,
                                           !.sigSr = s.rnd, !.sigDh = s.dh]
         cr   == Msg("CR", q + 3)
@@ -177,7 +186,8 @@ RecvSH(s, m) ==
 \* signaling before any key material of the certificate is used.
 RecvCERT(s, m) ==
   IF m.bad \/ m.cert = "-" THEN Fail(s)                              \* unparsable / empty chain
-  ELSE IF s.expFp # "none" /\ m.cert # s.expFp THEN Fail(s)
+  ELSE IF s.expFp # "none" /\ m.cert # s.expFp
+          /\ ~(Dev("FingerprintAnyInChain") /\ m.also = s.expFp) THEN Fail(s)
   ELSE Res([s EXCEPT !.peerCert = m.cert], <<>>)
 
 \* handle_server_key_exchange (client): ECDSA signature over randoms and ECDH parameters,
@@ -201,7 +211,7 @@ RecvSHD(s, m) ==
   ELSE
     LET q     == s.sendSeq
         auth  == ClientAuth /\ s.crSeen
-        cert  == [Msg("CERT", q) EXCEPT !.cert = s.cert]
+        cert  == [Msg("CERT", q) EXCEPT !.cert = s.cert, !.also = s.also]
         cke   == [Msg("CKE", IF auth THEN q + 1 ELSE q) EXCEPT !.dh = s.dh]
         tr1   == IF auth THEN s.tr \o <<Dig(cert), Dig(cke)>> ELSE Append(s.tr, Dig(cke))
         cv    == [Msg("CV", q + 2) EXCEPT !.sigBy = s.key, !.sigTr = tr1]
@@ -399,6 +409,8 @@ AppOf(s) == [Msg("APP", 0) EXCEPT !.enc = s.keys]
 
 Rewrite(kind, m) ==
   CASE kind = "rw_cert"     -> [m EXCEPT !.cert = "certM"]
+    [] kind = "rw_cert_pre" -> [m EXCEPT !.cert = "certM", !.also = m.cert]             \* [M, original leaf]
+    [] kind = "rw_cert_app" -> [m EXCEPT !.also = "certM"]                              \* [original leaf, M]
     [] kind = "rw_ske_key"  -> [m EXCEPT !.dh = "dhM"]                                   \* signature left as is
     \* M sees both hellos in clear, so what it signs itself covers the randoms the verifier holds ("*")
     [] kind = "rw_ske_sig"  -> [m EXCEPT !.sigBy = "certM", !.sigN = "M", !.sigCr = "*", !.sigSr = "*"]
@@ -412,7 +424,7 @@ Rewrite(kind, m) ==
     [] OTHER                -> m
 
 RewriteApplies(kind, m) ==
-  CASE kind = "rw_cert"     -> m.t = "CERT"
+  CASE kind \in {"rw_cert", "rw_cert_pre", "rw_cert_app"} -> m.t = "CERT"
     [] kind = "rw_ske_key"  -> m.t = "SKE"
     [] kind = "rw_ske_sig"  -> m.t = "SKE"
     [] kind = "rw_ske_full" -> m.t = "SKE"
